@@ -54,7 +54,9 @@ SPEC = {
     'Python hash of keys/leaves and the tuple-hash combiner are parameters of the hash theorem',
     'dataclasses machinery (__init__/__setattr__ generation, dataclasses.replace) and jax.tree_util.register_dataclass are modelled, not verified',
   ],
-  'model_partial': [],
+  'model_partial': [
+    'no `…_partial` theorem; gaps of the theorem set, covered by correspondence only: (1) contents of copy(x, add_or_replace) with a non-empty add (merge semantics) and of module-level copy/pop on plain dicts and of items() have no content theorem (separation and never-changes do cover them); (2) fuel sufficiency of the deep walks (no Recursion error on acyclic heaps) is not proved — the driver never returned Recursion on any generated history; (3) eq_order_independent / flatten_order_independent / mapEq_same_content assume distinct keys at every level (wfTree, true of every Python dict) instead of deriving it from the heap invariant; (4) the _hash cache is not a heap field: hash_cache_never_stale is the corollary "the hashed value never changes"; (5) the jit/vmap/grad clause of struct rests on A-JIT/A-VMAP/A-AD: the theorems say the treedef carries class + static fields and tree_map keeps it, the transforms themselves are exercised by the oracles only',
+  ],
 }
 
 KEYS = ['a', 'b', 'c', 'd']
@@ -192,10 +194,21 @@ def kind_of(x):
   return 'leaf'
 
 
+class Explosion(Exception):
+  """a held value is cyclic or absurdly large (cannot happen with the generator's acyclic user structures
+  unless a FrozenDict aliases something mutable)"""
+
+
+_BUDGET = [0]
+
+
 def dump_impl(x, depth=0):
   """canonical content through the public Mapping API only; user dicts carry their id()"""
-  if depth > 40:
-    return {'foreign': 'too-deep'}
+  if depth == 0:
+    _BUDGET[0] = 3000
+  _BUDGET[0] -= 1
+  if depth > 25 or _BUDGET[0] < 0:
+    raise Explosion()
   if isinstance(x, FrozenDict):
     return {'fz': True, 'kvs': sorted(([k, dump_impl(v, depth + 1)] for k, v in x.items()), key=lambda p: p[0])}
   if isinstance(x, dict):
@@ -488,7 +501,14 @@ class HistoryRun:
   def step(self, op):
     r = impl_step(self.roots, op)
     self.ops.append(op)
-    self.observe(op, r)
+    try:
+      self.observe(op, r)
+    except (Explosion, RecursionError):
+      k = len(self.ops) - 1
+      if len(self.steps) < len(self.ops):
+        self.steps.append({'r': r, 'n': len(self.roots), 'dumps': []})
+      self.oracle.append((f'value-cyclic-or-exploded:{op[0]}', f'step {k} {op}: a held value became cyclic or exploded (the user structures are acyclic by construction, so a FrozenDict must alias a mutable dict)'))
+      self.dead = True
     return r
 
   def storm(self):
@@ -702,8 +722,13 @@ def run_histories(ctx, drv, n, replay_ops=None):
     reqs, meta = [], []
     vbad = []
     if not hr.dead:
-      vbad = value_oracles(hr.roots, rng, reqs, meta)
-      hr.storm()
+      try:
+        vbad = value_oracles(hr.roots, rng, reqs, meta)
+        hr.storm()
+      except (Explosion, RecursionError):
+        hr.oracle.append(('value-cyclic-or-exploded:final', 'a held value became cyclic or exploded during the final checks'))
+        hr.dead = True
+        reqs, meta = [], []
     runs.append((hr, vbad, reqs, meta))
   # model, batched
   allreq = []
@@ -718,7 +743,10 @@ def run_histories(ctx, drv, n, replay_ops=None):
     vouts = outs[k + 1 : k + 1 + len(reqs)]
     k += 1 + len(reqs)
     case = {'kind': 'history', 'ops': hr.ops}
-    nontrivial = history_stats(ctx, hr)
+    try:
+      nontrivial = history_stats(ctx, hr)
+    except (Explosion, RecursionError):
+      nontrivial = True
     ctx.case(case, nontrivial=nontrivial)
     steps += len(hr.steps)
     err_steps += sum(1 for st in hr.steps if st['r'] != 'ok')
